@@ -9,6 +9,7 @@ import Blue.Proofs.LogCut
 import Blue.Proofs.FsyncCore
 import Blue.Proofs.Wcq
 import Blue.Proofs.WcqV
+import Blue.Proofs.ConcLog
 import Blue.Proofs.Crc32c
 import Blue.Proofs.ConstsTieC12
 import Blue.Driver.C12
@@ -16,7 +17,7 @@ import Blue.Driver.C12
     concurrent appends are durable before return and appear exactly once, whole
 
 Property theorems only (the proofs live in `Blue/Proofs/{Log,LogAny,LogHeader,LogTrunc,LogDamage,
-LogCrash,LogCrashAny,LogCut,FsyncCore,Wcq,WcqV}.lean`).  The model (`Blue/Model/Log.lean`) is the writer `_append` /
+LogCrash,LogCrashAny,LogCut,FsyncCore,Wcq,WcqV,ConcLog}.lean`).  The model (`Blue/Model/Log.lean`) is the writer `_append` /
 `append_split` / `true_up` and the reader `next_header` / `next_frame` / `next` of `sst/src/log.rs`
 over a parameter set `P` (block size, `HEADER_MAX_SIZE`, `TABLE_FULL_SIZE`, header codec, checksum).
 The reader's `true_up` reads the bytes it skips and refuses anything but the writer's zero padding
@@ -32,13 +33,32 @@ a batch is an opaque byte list; the decoding of a buffer into entries (`WriteBat
 driver / harness code, and the empty buffer is admitted by the model (`[] ∈ bufs` reads back as
 `[]`) while the real reader answers `Err(empty batch)` — `WriteBatch` never produces one.
 
-What is NOT a theorem: the composition of the four models (work-coalescing queue, write core,
-fsync core, log bytes).  The queue theorems say "the core is handed each input once, in link
-order"; that the file then is `writeAll` of the merged batches in that order, and that a `true`
-from the fsync core refers to THOSE bytes, is compared on every concurrent run (final file =
-`writeAll` of the observed merge, fdatasync probe; in the runs with a failing `fdatasync` the
-observed rounds of the fsync queue — members, whether a call was made, what it returned — are
-replayed through `Blue.FsyncCore.rstep` and the answers compared), not proved. -/
+The composition of the pieces of `ConcurrentLogBuilder::append` IS a theorem about one model
+(`Blue/Model/ConcLog.lean`, block `ConcLog` at the end): callers enter the write queue in link order;
+a leader's batch is the next `n ≥ 1` of them, merged (`WriteBatch::merge` = concatenation) and handed to
+the file model `Blue.LogCrash.FileSt` as one write of `Blue.Log.appendAt` at the builder's position;
+every member is answered the cumulative payload count and enters the fsync queue (in ITS link order)
+with it; the fsync core is `Blue.FsyncCore.rstep`, an `fdatasync` that returns successfully makes
+durable the bytes that were in the file when it was ISSUED.  `conc_log_file_is_sequential`: the file
+of every run is `writeAll` of the merged batches in link order, and reads back as exactly those;
+`conc_log_ack_is_durable` / `conc_log_ack_survives_later_crash`: a caller answered `Ok` has its record
+wholly inside the durable prefix, and after a crash at any later point, with any prefix of the
+not-yet-synced bytes surviving, the iterator delivers exactly a prefix of the link-order records that
+contains it; `conc_log_failed_sync_not_acked`: the members of a failed call get the error, nobody is
+answered twice, a later successful call does not acknowledge them.
+
+What remains NOT a theorem: (i) the two `WorkCoalescingQueue`s enter `Blue.ConcLog` through their
+SPEC (a batch is the next `n ≥ 1` inputs in link order, none twice, none skipped, one batch inside
+`work` at a time, every member is handed the output `work` produced for it) — that spec is what
+`core_sees_inputs_once_in_order_v` / `own_result_v` / `queue_never_panics` prove of the wake-up
+protocol model `Blue.WcqV`, but `Blue.ConcLog` does not contain `Blue.WcqV` as a sub-machine (no
+refinement theorem between the two); (ii) a failing `write`/`flush` (every member gets the `Err`;
+`self.written` has already advanced), `table_full`/`rollover_size`, and `ConcurrentLogBuilder::fsync()`
+(an entry `0` in the fsync queue) are not in `Blue.ConcLog`; (iii) the driver is NOT extended: the
+composed model is tied to the code through its parts — the framing bytes (sequential and concurrent
+streams: final file = `writeAll` of the observed merge), the fsync-core rounds (replayed through
+`Blue.FsyncCore.rstep`, fdatasync probe) and the queue runs (C18's streams) are each compared by the
+existing streams — not as a whole. -/
 namespace Blue.Props.C12
 open Blue.Log
 
@@ -410,6 +430,132 @@ example :
               .lead 2 1, .deliver 2 99, .finish 2].foldl Blue.WcqV.step Blue.WcqV.init
     s.log = [0, 1, 2] ∧ s.ents.map (·.ret) = [some 77, some 77, some 99] := by decide
 
+-- BEGIN ConcLog
+/-! ## the concurrent log as ONE machine (`Blue/Model/ConcLog.lean`)
+
+`Blue.ConcLog.run P lim evs`: the state of `ConcurrentLogBuilder` after the events `evs` (`link buf`,
+`write n`, `flink i`, `fenter n`, `fret ok`; see the model's header) — any number of callers, any
+batching the two cores choose (`n`), any interleaving the queues' spec allows, any `fdatasync`
+failing.  `lim` is what `WriteBatch` accepts (`check_batch_size`: `BLOCK_SIZE`). -/
+
+/-- **file of a concurrent run = file of a sequential `LogBuilder`** appending the leaders' merged
+    batches in write-queue link order (`merged s` = each group of `s.groups` concatenated;
+    `s.groups.flatten` = the callers handed to the core so far, in link order: every such caller's
+    buffer in exactly one record, in order); hence the iterator returns each record once, in that
+    order -/
+theorem conc_log_file_is_sequential {P : Params} {lim : Nat} (g : Good P) (hlim : lim ≤ P.tableFull)
+    (evs : List Blue.ConcLog.Ev) :
+    let s := Blue.ConcLog.run P lim evs
+    Blue.LogCrash.crashA s.file = writeAll P (Blue.ConcLog.merged s) 0
+      ∧ s.groups.flatten = s.bufs.take s.wrets.length
+      ∧ (Blue.ConcLog.merged s).flatten = (s.bufs.take s.wrets.length).flatten
+      ∧ readAll P (Blue.LogCrash.crashA s.file) ((Blue.ConcLog.merged s).length + 1) 0
+          = some (Blue.ConcLog.merged s) :=
+  Blue.ConcLog.conc_log_file_is_sequential g hlim evs
+
+/-- **`Ok` means durable**: caller `i` was answered `Ok(())`; the record `w.round` holds its buffer,
+    the frames of records `0 … w.round` lie inside the bytes a successfully returned `fdatasync`
+    covered (`crashB`), and with any `t` of the pending bytes surviving (`t = 0`: model (b),
+    `t ≥ |pending|`: model (a), in between: torn) the iterator delivers exactly the first `j` records,
+    `j > w.round`.  Composes `run_answered_true_is_durable` (the fsync core of the model is
+    `Blue.FsyncCore.run` of its trace) with `cut_delivers_exactly` -/
+theorem conc_log_ack_is_durable {P : Params} {lim : Nat} (g : Good P) (hlim : lim ≤ P.tableFull)
+    (evs : List Blue.ConcLog.Ev) (i : Nat) (hack : Blue.ConcLog.acked (Blue.ConcLog.run P lim evs) i = true) (t : Nat) :
+    let s := Blue.ConcLog.run P lim evs
+    ∃ (w : Blue.ConcLog.WRet) (grp : List (List Nat)) (b : List Nat) (j : Nat),
+      s.wrets[i]? = some w ∧ s.groups[w.round]? = some grp ∧ s.bufs[i]? = some b ∧ b ∈ grp
+      ∧ (writeAll P ((Blue.ConcLog.merged s).take (w.round + 1)) 0).length ≤ (Blue.LogCrash.crashB s.file).length
+      ∧ w.round < j ∧ j ≤ (Blue.ConcLog.merged s).length
+      ∧ (readSome P (s.file.synced ++ s.file.pending.take t) ((Blue.ConcLog.merged s).length + 1) 0).1
+          = (Blue.ConcLog.merged s).take j :=
+  Blue.ConcLog.conc_log_ack_is_durable g hlim evs i hack t
+
+/-- … and a crash at any LATER point (after any further events `evs'`) keeps it: the reopened
+    iterator returns a prefix of the link-order sequence that contains the record with the buffer
+    the caller linked with -/
+theorem conc_log_ack_survives_later_crash {P : Params} {lim : Nat} (g : Good P) (hlim : lim ≤ P.tableFull)
+    (evs evs' : List Blue.ConcLog.Ev) (i : Nat)
+    (hack : Blue.ConcLog.acked (Blue.ConcLog.run P lim evs) i = true) (t : Nat) :
+    let s' := Blue.ConcLog.run P lim (evs ++ evs')
+    ∃ (w : Blue.ConcLog.WRet) (grp : List (List Nat)) (b : List Nat) (j : Nat),
+      (Blue.ConcLog.run P lim evs).bufs[i]? = some b ∧ s'.wrets[i]? = some w ∧ s'.groups[w.round]? = some grp ∧ b ∈ grp
+      ∧ w.round < j ∧ j ≤ (Blue.ConcLog.merged s').length
+      ∧ (readSome P (s'.file.synced ++ s'.file.pending.take t) ((Blue.ConcLog.merged s').length + 1) 0).1
+          = (Blue.ConcLog.merged s').take j :=
+  Blue.ConcLog.conc_log_ack_survives_later_crash g hlim evs evs' i hack t
+
+/-- **a failed `fdatasync` is an error for the callers it covered** (as the code has it): (i) the
+    failing return answers exactly the members of the call `false` (`Err(corruption_fsync_failed)`)
+    and moves neither the file's durable part nor `synced`/`durable`; (ii) nobody is answered twice:
+    a caller answered `false` is never acknowledged — not by a later successful `fdatasync` either
+    (it makes the caller's bytes durable, but the caller has left with its error; its record stays
+    in the file and IS read back, `conc_log_file_is_sequential`: an `Err` from `append` does not mean
+    the batch is absent); (iii) `false` is never invented: it comes only from `fret false` with the
+    caller among the members of the call in flight -/
+theorem conc_log_failed_sync_not_acked {P : Params} {lim : Nat} (evs : List Blue.ConcLog.Ev) :
+    let s := Blue.ConcLog.run P lim evs
+    (∀ f, s.fs.flight = some f →
+        (Blue.ConcLog.step P lim s (.fret false)).answers = s.answers ++ s.fmem.map (fun e => (e.1, false))
+        ∧ (Blue.ConcLog.step P lim s (.fret false)).file = s.file
+        ∧ (Blue.ConcLog.step P lim s (.fret false)).fs.durable = s.fs.durable
+        ∧ (Blue.ConcLog.step P lim s (.fret false)).fs.synced = s.fs.synced
+        ∧ (Blue.ConcLog.step P lim s (.fret false)).fs.flight = none)
+    ∧ (∀ i, Blue.ConcLog.failed s i = true → Blue.ConcLog.acked s i = false)
+    ∧ (∀ (e : Blue.ConcLog.Ev) (i : Nat), (i, false) ∈ (Blue.ConcLog.step P lim s e).answers → (i, false) ∉ s.answers →
+        e = .fret false ∧ i ∈ s.fmem.map Prod.fst ∧ s.fs.flight.isSome = true) :=
+  Blue.ConcLog.conc_log_failed_sync_not_acked evs
+
+/-- every caller is answered at most once, and an answer is never taken back -/
+theorem conc_log_answered_once {P : Params} {lim : Nat} (evs : List Blue.ConcLog.Ev) :
+    ((Blue.ConcLog.run P lim evs).answers.map Prod.fst).Nodup := Blue.ConcLog.answered_once evs
+
+theorem conc_log_answer_persists {P : Params} {lim : Nat} (evs evs' : List Blue.ConcLog.Ev) (i : Nat) (b : Bool)
+    (h : (i, b) ∈ (Blue.ConcLog.run P lim evs).answers) : (i, b) ∈ (Blue.ConcLog.run P lim (evs ++ evs')).answers :=
+  Blue.ConcLog.ack_persists evs evs' i b h
+
+/-- the run used below: three callers; callers 0 and 1 are coalesced into ONE write (record
+    `[1,2,3,4,5]`, both answered offset 5) and enter the fsync queue in the OTHER order; one
+    `fdatasync` is issued for the two; caller 2's write (record `[6,7,8,9]`, split over the block
+    boundary at 16) lands while it is in flight; it returns successfully (event 9); caller 2 then
+    leads its own call, which FAILS -/
+def concToyRun : List Blue.ConcLog.Ev :=
+  [.link [1, 2, 3], .link [4, 5], .link [6, 7, 8, 9], .write 2, .flink 1, .flink 0, .fenter 2, .write 1,
+   .fret true, .flink 2, .fenter 1, .fret false]
+
+/-- after event 9 (the crash point): two records, callers 0 and 1 acknowledged by one `fdatasync`,
+    caller 2 not; the first record (9 bytes) is durable, the 12 bytes of the second — written while
+    the call was in flight — are pending.  Crash: none / 5 / all of the pending bytes survive: one
+    record and a clean end, one record and an error, both records.  After the failed call: caller 2
+    is `failed`, not `acked`; nothing more is durable; the file still reads back both records -/
+example :
+    let s := Blue.ConcLog.run toyParams 12 (concToyRun.take 9)
+    let s' := Blue.ConcLog.run toyParams 12 concToyRun
+    s.groups = [[[1, 2, 3], [4, 5]], [[6, 7, 8, 9]]]
+    ∧ s.wrets = [⟨0, 5⟩, ⟨0, 5⟩, ⟨1, 9⟩]
+    ∧ s.fq = [(1, 5), (0, 5)]
+    ∧ s.answers = [(1, true), (0, true)]
+    ∧ (Blue.ConcLog.acked s 0, Blue.ConcLog.acked s 1, Blue.ConcLog.acked s 2) = (true, true, false)
+    ∧ s.file.synced = [3, 5, 1, 0, 1, 2, 3, 4, 5]
+    ∧ s.file.pending = [3, 3, 2, 0, 6, 7, 8, 3, 1, 3, 0, 9]
+    ∧ Blue.LogCrash.crashA s.file = writeAll toyParams [[1, 2, 3, 4, 5], [6, 7, 8, 9]] 0
+    ∧ readSome toyParams (s.file.synced ++ s.file.pending.take 0) 3 0 = ([[1, 2, 3, 4, 5]], false)
+    ∧ readSome toyParams (s.file.synced ++ s.file.pending.take 5) 3 0 = ([[1, 2, 3, 4, 5]], true)
+    ∧ readSome toyParams (s.file.synced ++ s.file.pending.take 12) 3 0 = ([[1, 2, 3, 4, 5], [6, 7, 8, 9]], false)
+    ∧ (Blue.ConcLog.run toyParams 12 (concToyRun.take 11)).fmem = [(2, 9)]
+    ∧ s'.answers = [(1, true), (0, true), (2, false)]
+    ∧ (Blue.ConcLog.failed s' 2, Blue.ConcLog.acked s' 2) = (true, false)
+    ∧ s'.file.synced.length = 9 ∧ s'.fs.durable = 5
+    ∧ readAll toyParams (Blue.LogCrash.crashA s'.file) 3 0 = some [[1, 2, 3, 4, 5], [6, 7, 8, 9]] := by decide
+
+/-- … and the theorems apply to it (their hypotheses are discharged) -/
+example := conc_log_file_is_sequential good_toy (lim := 12) (by decide) concToyRun
+example (t : Nat) := conc_log_ack_is_durable good_toy (lim := 12) (by decide) (concToyRun.take 9) 0 (by decide) t
+example (t : Nat) :=
+  conc_log_ack_survives_later_crash good_toy (lim := 12) (by decide) (concToyRun.take 9) (concToyRun.drop 9) 1 (by decide) t
+example : Blue.ConcLog.acked (Blue.ConcLog.run toyParams 12 concToyRun) 2 = false :=
+  (conc_log_failed_sync_not_acked (P := toyParams) (lim := 12) concToyRun).2.1 2 (by decide)
+-- END ConcLog
+
 end Blue.Props.C12
 
 #print axioms Blue.Props.C12.params_from_source
@@ -443,3 +589,9 @@ end Blue.Props.C12
 #print axioms Blue.Props.C12.core_sees_inputs_once_in_order_v
 #print axioms Blue.Props.C12.own_result_v
 #print axioms Blue.Props.C12.queue_never_panics
+#print axioms Blue.Props.C12.conc_log_file_is_sequential
+#print axioms Blue.Props.C12.conc_log_ack_is_durable
+#print axioms Blue.Props.C12.conc_log_ack_survives_later_crash
+#print axioms Blue.Props.C12.conc_log_failed_sync_not_acked
+#print axioms Blue.Props.C12.conc_log_answered_once
+#print axioms Blue.Props.C12.conc_log_answer_persists
